@@ -28,7 +28,7 @@ OUTSIDE = ["the printed report and the pass/fail counting by `tol` (tol is an ob
            "exactly, which is the definition of the difference quotient"]
 ASSUMPTIONS = ["float64 as exact reals", "input entries are non-zero unless the item is about keep_zero_structure",
                "np.random.rand returns arbitrary values in [0,1)"]
-ITEM_TIMEOUT = {"quick": 110, "thorough": 600}
+ITEM_TIMEOUT = {"quick": 240, "thorough": 600}
 
 
 class NeverExceeded:
